@@ -522,7 +522,10 @@ impl Executor {
                     return Some(());
                 }
                 OpCode::Loop(iterations, op_count) => {
-                    if iterations > 0 { 
+                    // A loop with an empty body runs nothing, however often: no loop is opened for it. Opening one left a
+                    // state on the loop stack whose body was already "left" (end = the header itself), which cut the
+                    // enclosing loop short and made a following loop fail as improperly nested.
+                    if iterations > 0 && op_count > 0 {
                         if let Some(last) = self.loop_state.last() {
                             let previous_loop_end = last.end;
                             let this_end = self.pc + op_count as usize - 1;
